@@ -53,6 +53,12 @@ def tree_snapshot(elem):
 ERRLOG = []
 
 
+def _bad_key(b):
+    if "::" in b:
+        return b.split("::")[0]
+    return "input-modified/" + b.split(" modified ")[0].replace(" ", "-")
+
+
 def run_item(item, held=None):
     """-> (result, purity_failures)"""
     H.setup_path()
@@ -136,6 +142,41 @@ def run_item(item, held=None):
                 b.feed(item["text"])
                 r = b.close()
                 return ["badbody", X.from_etree(r) if r is not None else None], bad
+            if kind == "reconvert":
+                # one OFXTree, converted twice with an in-place edit of the parsed tree in between: convert() depends on
+                # the tree as it is now
+                inst = M.build(item["inst"])
+                data = OFXClient("https://x.invalid", version=203).serialize(inst)
+                t = OFXTree()
+                root = t.parse(io.BytesIO(data))
+                first = M.dump(t.convert())
+                target = [e for e in root.iter() if len(e) == 0 and (e.text or "").strip()]
+                if not target:
+                    return ["reconvert", "nothing to edit"], bad
+                e = target[item["k"] % len(target)]
+                old = e.text
+                e.text = old  # same text: a no-op edit first
+                same = M.dump(t.convert())
+                if same != first:
+                    bad.append("convert-not-repeatable:: convert() twice on the same tree gave different models")
+                parent = {c: p for p in root.iter() for c in p}
+                par = parent.get(e)
+                if par is None:
+                    return ["reconvert", "leaf is the root"], bad
+                idx = list(par).index(e)
+                par.remove(e)
+                try:
+                    second = ["ok", M.dump(t.convert())]
+                except Exception as ex:
+                    second = ["raised", type(ex).__name__]
+                try:
+                    fresh = ["ok", M.dump(Aggregate.from_etree(root))]
+                except Exception as ex:
+                    fresh = ["raised", type(ex).__name__]
+                if second != fresh:
+                    bad.append(f"convert-ignores-edited-tree:: after removing <{e.tag}> from the parsed tree, OFXTree.convert() = {H.canon(second)[:120]} but converting that tree afresh = {H.canon(fresh)[:120]}")
+                par.insert(idx, e)
+                return ["reconvert", first, fresh], bad
             if kind == "badfile":
                 # a complete file whose body is not in the character set its header declares
                 t = OFXTree()
@@ -212,11 +253,11 @@ def check_case(case):
                 inst = None
         r0, bad = run_item(probe)
         for b in bad:
-            out.append(("input-modified/" + b.split(" modified ")[0].replace(" ", "-"), f"{probe['kind']} {probe.get('inst', {}).get('cls')}: {b}"))
+            out.append((_bad_key(b), f"{probe['kind']} {probe.get('inst', {}).get('cls')}: {b}"))
         for it in hist:
             _, bad = run_item(it)
             for b in bad:
-                out.append(("input-modified/" + b.split(" modified ")[0].replace(" ", "-"), f"{it['kind']}: {b}"))
+                out.append((_bad_key(b), f"{it['kind']}: {b}"))
         r1, _ = run_item(probe)
         for it in reversed(hist):
             run_item(it)
@@ -354,11 +395,13 @@ def item_st(cls_names):
         if k == 7:
             from pbt.checks import c04
 
-            obs = [o for o in c04.obligations(U[name]) if o["kind"] in ("required-omitted", "foreign-token", "duplicate-child", "swap-children", "two-of-at-most-one", "undeclared-keyword")]
+            obs = [o for o in c04.obligations(U[name]) if o["kind"] in ("required-omitted", "foreign-token", "duplicate-child", "swap-children", "two-of-at-most-one", "undeclared-keyword", "string-over-limit", "integer-over-limit", "custom", "required-given-empty")]
             if obs:
                 return {"kind": "fail", "ob": obs[draw(st.integers(0, len(obs) - 1))]}
             return {"kind": "type", "type": "DateTime", "text": "20200101"}
         if k == 8:
+            if draw(st.integers(0, 2)) == 0:
+                return {"kind": "reconvert", "inst": draw(M.instance_st(U[name], max_members=2, markup=False)), "k": draw(st.integers(0, 50))}
             if draw(st.booleans()):
                 return {"kind": "introspect", "cls": name}
             if draw(st.booleans()):
